@@ -64,6 +64,16 @@ def src_value(table, c, i):
 # ever compared.
 EPS = Fraction(1, 10 ** 40)
 ADVERSARIAL = ("near", "drift", "big", "twin", "nrows")
+# NESTED SOURCES (added after seed C14f-1: a fast path of deep flatten for items that are PLAIN lists walked an
+# infinite lazy list held by such a plain list to its end).  The shapes above put an infinite inner list only
+# directly under the source ("inf"), and finite rows hold scalars only: a stage that walks INTO items treats plain
+# lists, finite lazy lists and infinite lazy lists by different code, so every alternation of the three containers
+# must occur.  Uniformly for every stage that applies to structures holding infinite rows (STRUCTURAL):
+#   "pinf"   the plain list [v, <v+1, v+2, ...>]                      (lazy source > plain > infinite lazy, next to a scalar)
+#   "ppinf"  the plain list [[v], [[<v+1, ...>]]]                      (... two more plain levels down)
+#   "lpinf"  the FINITE lazy list <v, [v+1, <v+2, ...>]>               (lazy > finite lazy > plain > infinite lazy)
+#   "mixinf" the scalar v at even i, the infinite <v, v+1, ...> at odd i   (scalars and infinite lists side by side)
+NESTED = ("pinf", "ppinf", "lpinf", "mixinf")
 INNER = 5            # an infinite inner lazy list is shown by its first INNER items
 PROBE = 64           # ... and recognised by having more than PROBE items
 
@@ -77,9 +87,21 @@ class InfRow:
         return itertools.count(self.start)
 
 
+class FinLazy(list):
+    """Reference-side stand-in for a FINITE lazy list: a list for the reference, a LazyList for the implementation."""
+
+
 def src_ref(src, i):
     table, c, shape = src
     v = src_value(table, c, i)
+    if shape == "pinf":
+        return [v, InfRow(v + 1)]
+    if shape == "ppinf":
+        return [[v], [[InfRow(v + 1)]]]
+    if shape == "lpinf":
+        return FinLazy([v, [v + 1, InfRow(v + 2)]])
+    if shape == "mixinf":
+        return v if i % 2 == 0 else InfRow(v)
     if shape == "int":
         return v
     if shape == "str":
@@ -104,6 +126,11 @@ def to_impl(x):
     if isinstance(x, Fraction):
         import sympy
         return sympy.Rational(x.numerator, x.denominator)
+    if isinstance(x, InfRow):                   # at any depth: a fresh infinite lazy list, flagged infinite
+        return counting(x.start)
+    if isinstance(x, FinLazy):
+        from vyxal.LazyList import LazyList
+        return LazyList(iter([to_impl(y) for y in x]))
     if isinstance(x, list):
         return [to_impl(y) for y in x]
     return x
@@ -171,23 +198,68 @@ def counting(o):
     return LazyList((o + i for i in itertools.count()), isinf=True)
 
 
+def ascending(o, st):
+    """The infinite ascending list o, o+st, o+2st, ... as the built-in infinite lists are made: flagged infinite by the constructor."""
+    from vyxal.LazyList import LazyList
+    return LazyList((o + st * i for i in itertools.count()), isinf=True)
+
+
+def in_prog(x, o, st):
+    return x >= o and (x - o) % st == 0
+
+
+# SECOND OPERAND INFINITE AND FLAGGED (added after seed C14f-2: the remove overload of filter materialised a lazy second
+# operand "once" -- harmless for every finite operand, endless for an infinite one).  The dyads were measured with the
+# source on either side of a FINITE list, and only zip / interleave / add against an infinite partner.  Now every dyadic
+# stage / overload of the catalogue that is lazy in an infinite partner also gets the arrangement "instrumented source
+# first, ascending infinite list flagged isinf=True second" (parameters: start and step of the progression), and the
+# vectorised - * + the mirrored one; judged like every other stage (watchdog, bound, reference).  These stages have no
+# machine in the Coq model: oracle only.
+INF_OPERAND = {"filter_not_in_inf", "union_inf_r", "append_inf", "mul_list", "sub_list", "add_list_l", "mul_list_l",
+               "sub_list_l", "keep_in_inf"}
+# PENDING_FINDINGS: differences the new inputs show on the UNCHANGED tree, reported to the integrator, left out of the
+# judged claim until decided (nothing else is exempted):
+#   "membership-in-flagged-infinite": LazyList.__contains__ of a list flagged infinite searches onward from the LAST item
+#   it generated, so it answers 0 for every value at or below that item (naturals F evens keeps 2, 4, ...; naturals
+#   keep-only evens never yields anything).  Consequences: the OUTPUTS of filter_not_in_inf are not compared (termination
+#   and the pull bound are: the implementation keeps a superset of the reference's items, so the bound stands), the stage
+#   stays out of the random compositions, and keep_in_inf (the keep overload of ↔ with an infinite operand) is not run.
+PENDING_FINDINGS = {"membership-in-flagged-infinite": {"outputs_not_compared": ("filter_not_in_inf",), "not_run": ("keep_in_inf",)}}
+PENDING_OUTPUTS = set(PENDING_FINDINGS["membership-in-flagged-infinite"]["outputs_not_compared"])
+PENDING_NOT_RUN = set(PENDING_FINDINGS["membership-in-flagged-infinite"]["not_run"])
+
+# Membership in an ascending infinite list is a search from its start up to the value asked for: its length is the VALUE
+# of the item, by the meaning of the operation, not a lack of laziness.  The claim (pulls of the SOURCE linear in n, the
+# call terminates) is therefore stated for these stages on sources of small magnitude only: not on 2**53 + v.
+SEARCHING = {"filter_not_in_inf", "keep_in_inf"}
+HUGE_VALUES = {"big"}
+
+
+def admits(src, stage):
+    return applicable(stage, START_KIND[src[2]]) and not (stage[0] in SEARCHING and src[2] in HUGE_VALUES)
+
+
 INT_ONLY = {"map_affine", "cumsum", "deltas", "add_scalar", "add_scalar_l", "add_list", "multiply", "subtract",
             "negate", "group", "truthy", "map_nth", "map_alt", "interleave_l", "interleave_r",
             "interleave_fin", "interleave_fin_r", "add_fin_l", "add_fin_r", "mul_fin_l", "mul_fin_r", "sub_fin_l", "sub_fin_r",
-            "union_fin_l", "filter_not_in"}
+            "union_fin_l", "filter_not_in",
+            "filter_not_in_inf", "keep_in_inf", "mul_list", "sub_list", "add_list_l", "mul_list_l", "sub_list_l"}
 ROWS_ONLY = {"vec_sum"}
 INT_OR_ROWS = {"flatten1"}
-COMPARING = {"uniquify", "union"}              # compare items: integers, rows of integers, strings
+COMPARING = {"uniquify", "union", "union_inf_r"}              # compare items: integers, rows of integers, strings
 HASHING = {"uniq_mask"}                        # put items in a set: integers, strings
 SUMMING = {"map_sum", "filter_mod"}            # look inside finite nested integers
 # stages that never look inside an item: applicable to strings, to structures of strings and to infinite rows
 STRUCTURAL = {"zip_l", "zip_r", "zip_fin_l", "zip_fin_r", "prefixes", "windows", "chunks", "flatten", "flatten_by", "enumerate",
-              "prepend", "append", "append_list", "merge_fin", "slice", "stride", "uninterleave", "head_remove",
+              "prepend", "append", "append_list", "append_inf", "merge_fin", "slice", "stride", "uninterleave", "head_remove",
               "insert_at", "remove_at"}
-KEEPS_ITEMS = {"slice", "stride", "uninterleave", "head_remove", "remove_at", "uniquify", "union", "append", "append_list"}
-RELATIVE = {"filter_mod", "uniquify", "union", "truthy", "group", "flatten", "flatten1", "flatten_by", "union_fin_l", "filter_not_in"}
+KEEPS_ITEMS = {"slice", "stride", "uninterleave", "head_remove", "remove_at", "uniquify", "union", "append", "append_list",
+               "append_inf", "union_inf_r"}
+RELATIVE = {"filter_mod", "uniquify", "union", "truthy", "group", "flatten", "flatten1", "flatten_by", "union_fin_l", "filter_not_in",
+            "filter_not_in_inf", "keep_in_inf", "union_inf_r"}
 START_KIND = {"int": "int", "str": "str", "rows": "rows", "inf": "inf",
-              "near": "int", "drift": "int", "big": "int", "twin": "twin", "nrows": "rows"}   # numbers of any size are "int"
+              "near": "int", "drift": "int", "big": "int", "twin": "twin", "nrows": "rows",   # numbers of any size are "int"
+              "pinf": "inf", "ppinf": "inf", "lpinf": "inf", "mixinf": "inf"}
 
 
 def applicable(stage, kind):
@@ -225,7 +297,7 @@ def kind_after(stage, kind):
         return "rows" if kind == "int" else "deep"
     if name == "enumerate":
         return "deep"
-    if name in ("prepend", "append", "append_list", "merge_fin", "insert_at"):
+    if name in ("prepend", "append", "append_list", "append_inf", "merge_fin", "insert_at"):
         return kind if kind == "int" else "deep"
     return kind
 
@@ -341,6 +413,24 @@ def apply_stage(stage, L, ctx):
         return E.vy_filter(L, list(p[0]), ctx)
     if name == "append_list":
         return E.merge(L, list(p[0]), ctx)
+    if name == "filter_not_in_inf":    # the remove overload of F, the items to remove being an infinite list
+        return E.vy_filter(L, ascending(*p), ctx)
+    if name == "keep_in_inf":          # the keep overload of ↔
+        return E.combinations_with_replacement(L, ascending(*p), ctx)
+    if name == "union_inf_r":
+        return E.union(L, ascending(*p), ctx)
+    if name == "append_inf":
+        return E.merge(L, ascending(*p), ctx)
+    if name == "mul_list":
+        return E.multiply(L, ascending(*p), ctx)
+    if name == "sub_list":
+        return E.subtract(L, ascending(*p), ctx)
+    if name == "add_list_l":
+        return E.add(ascending(*p), L, ctx)
+    if name == "mul_list_l":
+        return E.multiply(ascending(*p), L, ctx)
+    if name == "sub_list_l":
+        return E.subtract(ascending(*p), L, ctx)
     if name == "pair_with":            # M without a function: a list comprehension over the operand (probe only)
         return E.vy_map(p[0], L, ctx)
     if name == "cumsum_sans_last":     # ÞR: needs the end of the list (probe only)
@@ -524,8 +614,22 @@ def ref_stage(stage, l):
         return [x for x, new in zip(both, first_flags(both)) if new]
     if name == "filter_not_in":
         return [x for x in l if x not in p[0]]
-    if name == "append_list":
+    if name in ("append_list", "append_inf"):
         return l
+    if name == "filter_not_in_inf":
+        return [x for x in l if not in_prog(x, *p)]
+    if name == "keep_in_inf":
+        return [x for x in l if in_prog(x, *p)]
+    if name == "union_inf_r":          # the first operand never ends: its first occurrences
+        return [x for x, new in zip(l, first_flags(l)) if new]
+    if name in ("mul_list", "mul_list_l"):
+        return [x * (p[0] + p[1] * i) for i, x in enumerate(l)]
+    if name == "sub_list":
+        return [x - (p[0] + p[1] * i) for i, x in enumerate(l)]
+    if name == "sub_list_l":
+        return [(p[0] + p[1] * i) - x for i, x in enumerate(l)]
+    if name == "add_list_l":
+        return [(p[0] + p[1] * i) + x for i, x in enumerate(l)]
     raise KeyError(name)
 
 
@@ -630,9 +734,21 @@ def force(x):
     return "?<" + type(x).__name__ + ":" + repr(x)[:40]
 
 
+def _cap_worker_memory(limit=8 << 30):
+    """A stage that materialises an infinite list grows until the watchdog fires: in a forked worker (never in the
+    orchestrating process) the address space is capped so that such a call ends in MemoryError instead of swapping."""
+    import multiprocessing
+    import resource
+    if multiprocessing.current_process().name != "MainProcess":
+        soft, hard = resource.getrlimit(resource.RLIMIT_AS)
+        if soft == resource.RLIM_INFINITY or soft > limit:
+            resource.setrlimit(resource.RLIMIT_AS, (limit, hard))
+
+
 def measure(item):
     """item = (source, stages, n, mode) -> (pulls, outputs)."""
     srcspec, stages, n, mode = item
+    _cap_worker_memory()
     V.import_repo()
     import vyxal.elements  # noqa: F401  (import order: elements before LazyList)
     from vyxal.LazyList import LazyList
@@ -736,11 +852,15 @@ PARAMS = {
     "add_fin_l": [(f,) for f in FINS[1:]], "add_fin_r": [(f,) for f in FINS[1:]],
     "mul_fin_l": [((2, 3),)], "mul_fin_r": [((2, 3),)], "sub_fin_l": [((10, 20, 30),)], "sub_fin_r": [((10, 20, 30),)],
     "union_fin_l": [((1, 2, 3),)], "filter_not_in": [((),), ((1, 2, 3),)],
+    # second operand an ascending infinite list flagged infinite: (start, step)
+    "filter_not_in_inf": [(2, 2), (1, 3)], "keep_in_inf": [(2, 2), (1, 3)], "union_inf_r": [(0, 1), (2, 2)],
+    "append_inf": [(100, 1)], "mul_list": [(1, 2)], "sub_list": [(0, 3)],
+    "add_list_l": [(100, 1)], "mul_list_l": [(1, 2)], "sub_list_l": [(0, 3)],
 }
 
 
 def catalogue():
-    return [(name,) + ps for name, space in PARAMS.items() for ps in space]
+    return [(name,) + ps for name, space in PARAMS.items() for ps in space if name not in PENDING_NOT_RUN]
 
 
 def sname(stage):
@@ -769,6 +889,8 @@ def make_sources(rng):
         (t2, 3, "big"),         # both sides of 2**53, with repeats
         (t1, 1, "twin"),        # v, str(v) alternating: a number and its spelling are different items
         (t1, 1, "nrows"),       # rows of nearly equal rationals
+        # nested sources (see NESTED above): an infinite lazy list under plain / finite lazy containers, next to scalars
+        (t1, 1, "pinf"), (t1, 1, "ppinf"), (t1, 1, "lpinf"), (t1, 1, "mixinf"),
     ]
 
 
@@ -848,7 +970,10 @@ def has_marker(x):
 SHAPE_TEXT = {"str": " of strings", "rows": " of finite rows", "inf": " of infinite lists",
               "near": " of rationals 1e-40 apart (1/3 + v/10**40)", "drift": " of pairwise distinct rationals v + i/10**40",
               "big": " of integers around 2**53", "twin": " of numbers alternating with their spellings",
-              "nrows": " of finite rows of rationals 1e-40 apart"}
+              "nrows": " of finite rows of rationals 1e-40 apart",
+              "pinf": " of plain lists [v, <infinite list>]", "ppinf": " of plain lists [[v], [[<infinite list>]]]",
+              "lpinf": " of finite lazy lists <v, [v+1, <infinite list>]>",
+              "mixinf": " of scalars alternating with infinite lists"}
 
 
 def judge(env, entries, results, cases, prim, formula, hung):
@@ -876,7 +1001,7 @@ def judge(env, entries, results, cases, prim, formula, hung):
                 if pulls > bound:
                     env.fail(dict(inp, mode=mode), f"{name}: {n} items pulled {pulls} items of the source{on}, bound {bound}",
                              cls=f"pulls-exceed:{tag}", extra={"pulls": pulls, "bound": bound})
-                if outs != expected:
+                if outs != expected and not any(s[0] in PENDING_OUTPUTS for s in pl):
                     env.fail(dict(inp, mode=mode), f"{name}: first {n} items are {str(outs)[:200]}, mathematically {str(expected)[:200]}",
                              cls=f"outputs:{tag}")
         if len(got) == 2:
@@ -884,7 +1009,7 @@ def judge(env, entries, results, cases, prim, formula, hung):
                 env.fail(inp, f"{name}: iteration pulls {got['islice'][0]}, indexing pulls {got['index'][0]}", cls=f"modes-differ:{tag}")
             pulls, outs = got["islice"]
             prim.setdefault((src, pl), {})[n] = (pulls, outs)
-            if src[2] == "int" and not has_marker(outs):
+            if src[2] == "int" and not has_marker(outs) and not any(s[0] in INF_OPERAND for s in pl):
                 cases.append((src, pl, n, pulls, outs))
             if len(pl) == 1:
                 formula.setdefault(tag, {}).setdefault(str(list(src[0])) + "+" + str(src[1]), []).append((n, pulls))
@@ -933,15 +1058,17 @@ def run_all(env, with_model=True):
     jobs = []            # (source, stages, N)
     for src in sources:
         for s in cat:
-            if applicable(s, START_KIND[src[2]]):
+            if admits(src, s):
                 jobs.append((src, (s,), N))
     nsingle = len(jobs)
     # compositions: random type-correct pipelines of 2 and 3 stages with random parameters, on a random source, all n <= N
     ncomp = env.budget(180, 1000)
+    comp_cat = [s for s in cat if s[0] not in PENDING_OUTPUTS]
     seen = set()
     for i in range(ncomp):
         src = sources[rng.randrange(len(sources))]
-        pl = random_pipeline(rng, cat, 2 if i % 3 == 0 else 3, START_KIND[src[2]])
+        pl = random_pipeline(rng, [s for s in comp_cat if not (s[0] in SEARCHING and src[2] in HUGE_VALUES)],
+                             2 if i % 3 == 0 else 3, START_KIND[src[2]])
         if (src, pl) not in seen:
             seen.add((src, pl))
             jobs.append((src, pl, N))
@@ -1005,8 +1132,12 @@ def run_all(env, with_model=True):
     comps = [j for j in jobs[nsingle:]]
     env.note("pipelines", {"single_stage_with_parameters": len(cat), "single_on_a_source": nsingle, "compositions": len(comps),
                            "of_length_2": sum(1 for j in comps if len(j[1]) == 2), "of_length_3": sum(1 for j in comps if len(j[1]) == 3),
-                           "by_source_shape": {sh: sum(1 for j in jobs if j[0][2] == sh) for sh in ("int", "str", "rows", "inf") + ADVERSARIAL}})
+                           "by_source_shape": {sh: sum(1 for j in jobs if j[0][2] == sh) for sh in ("int", "str", "rows", "inf") + ADVERSARIAL + NESTED}})
     env.note("adversarial_item_kinds", {sh: SHAPE_TEXT[sh].strip() for sh in ADVERSARIAL})
+    env.note("nested_sources", {sh: SHAPE_TEXT[sh].strip() for sh in NESTED})
+    env.note("second_operand_infinite_flagged", {"stages": sorted(INF_OPERAND - PENDING_NOT_RUN), "operand": "o, o+st, o+2st, ... built as "
+             "LazyList(generator, isinf=True); (o, st) under parameter_spaces", "model": "oracle only"})
+    env.note("pending_findings", {k: {a: list(b) for a, b in v.items()} for k, v in PENDING_FINDINGS.items()})
     env.note("parameter_spaces", {k: [list(map(_jsonable, ps)) for ps in v] for k, v in PARAMS.items() if v != [()]})
     env.note("inadmissible_skipped", skipped)
     if hung:
@@ -1099,7 +1230,7 @@ def long_probe(env, jobs, hangs, t0):
             if pulls > bound:
                 env.fail(inp, f"{name}: {what} pulled {pulls} items of the source{on}, bound {bound}",
                          cls=f"pulls-exceed-long:{tag}", extra={"pulls": pulls, "bound": bound})
-            if outs != expected:
+            if outs != expected and not any(s[0] in PENDING_OUTPUTS for s in pl):
                 env.fail(inp, f"{name}: {what}: got {str(outs)[-200:]}, mathematically {str(expected)[-200:]}", cls=f"outputs-long:{tag}")
     V.log(f"[C14] long prefixes: {len(items)} ({time.time()-t0:.1f}s)")
     env.note("long_prefix_probe", {"first_n_by_iteration": LONG_N, "single_item_at_index": LONG_AT, "pipelines": len(ljobs),
@@ -1148,7 +1279,16 @@ RULE = ("instrumented infinite source (generator counting its resumptions, wrapp
         "read back as Fraction, the reference is exact.  LONG PREFIXES: every single stage with every parameter on every one of the 13 sources, and "
         "the first 60 (quick) / 300 (thorough) compositions: the first 400 items by iteration and the single item at index 500 by L[500] on a fresh "
         "pipeline, under the watchdog; pulls within the same linear bound, items equal the reference, any exception (RecursionError included) is a "
-        "failure to produce the prefix.  Non-trivial = n >= 1 or a slicing/boundary way of taking; distinct by (source, pipeline, n, way).")
+        "failure to produce the prefix.  NESTED SOURCES: four more sources whose items hold an infinite lazy list under other containers -- the plain "
+        "list [v, <inf>], the plain list [[v], [[<inf>]]], the finite lazy list <v, [v+1, <inf>]>, scalars alternating with infinite lists -- go "
+        "through every stage that applies to structures holding infinite rows (zip, prefixes, windows, chunks, deep flatten, flatten by every depth, "
+        "enumerate, prepend/append/merge, slices, strides, insert/remove at), all n, both ways, the other ways of taking, the long prefixes and the "
+        "compositions.  SECOND OPERAND INFINITE AND FLAGGED: every dyadic stage / overload that is lazy in an infinite partner is also run as "
+        "(source, ascending infinite list built with isinf=True), start and step from its parameter space: remove overload of filter, union, merge, "
+        "vectorised * and - (and + * - mirrored); oracle only (no machine in the model).  Pending (see pending_findings): outputs of the remove "
+        "overload against an infinite list are not compared and the keep overload of ↔ is not run, because membership in a flagged-infinite list "
+        "answers 0 for every value at or below the last item it generated; membership stages are not run on the 2**53 sources (the search is as "
+        "long as the value).  Non-trivial = n >= 1 or a slicing/boundary way of taking; distinct by (source, pipeline, n, way).")
 
 
 def run(env):
@@ -1175,5 +1315,8 @@ def assumptions(env):
                "the oracle only; the model is evaluated for n <= 40 on small integers" % (LONG_N, LONG_AT))
     env.assume("sources of strings, of finite rows and of infinite lists are judged by the oracle only (reference, bounds, watchdog); the Coq model is "
                "evaluated on the integer sources, its value universe has neither strings nor infinite inner lists")
+    env.assume("dyadic stages whose second operand is an infinite list flagged infinite (filter-remove, union, merge, * - +) are judged by the oracle "
+               "only; for the remove overload of filter the outputs are not compared while the finding on LazyList.__contains__ is pending "
+               "(termination and the pull bound are judged)")
     env.assume("windows/chunks of size 0 and transformations that need the end of the list (tail remove, ÞR) are outside the quantifier "
                "(recorded under outside_the_quantifier)")
